@@ -241,7 +241,13 @@ def make_body(sc, e, raised_objs):
                 ln = None
             ev('len', ln)
             it = iter(ds.items()) if sc.get('key') else iter(ds)
+            if sc.get('dual'):
+                # a second iterator over the SAME dataset object, consumed in
+                # lock step with the first: nothing an iteration needs may be
+                # kept on the dataset object
+                it2 = iter(ds.items()) if sc.get('key') else iter(ds)
         delivered = []
+        delivered2 = []
         outcome = None
         limit = n + 5 if stop[0] == 'exhaust' else stop[1]
         try:
@@ -250,6 +256,12 @@ def make_body(sc, e, raised_objs):
                 v = next(it)
                 ev('deliver', v)
                 delivered.append(v)
+                if sc.get('dual'):
+                    try:
+                        delivered2.append(next(it2))
+                        ev('deliver2', delivered2[-1])
+                    except StopIteration:
+                        ev('exhausted2')
                 if wait:
                     import time
                     time.sleep(wait)      # real-thread harness: a slow consumer
@@ -258,6 +270,12 @@ def make_body(sc, e, raised_objs):
         except StopIteration:
             ev('exhausted')
             outcome = ('exhausted', None)
+            if sc.get('dual'):
+                try:
+                    delivered2.append(next(it2))
+                    ev('deliver2', delivered2[-1])
+                except StopIteration:
+                    ev('exhausted2')
         except S.STOP:
             raise
         except BaseException as exc:
@@ -283,6 +301,9 @@ def make_body(sc, e, raised_objs):
             except BaseException as exc:
                 ev('close_raised', type(exc).__name__)
             outcome = ('stopped', None)
+        if sc.get('dual'):
+            del it2
+            gc.collect()
         ev('close_return')
         mark = S.mark()
         # let every other thread run until it finishes or blocks for good
@@ -343,6 +364,17 @@ def judge_transparent(sc, r, res, ld):
                        'outcome': r['outcome'][0]}, sig=sig)
         return False
     starts = [e[2] for e in r['events'] if e[1] == 'start']
+    if sc.get('dual'):
+        d2 = [e[2] for e in r['events'] if e[1] == 'deliver2']
+        if d2 != want or not any(e[1] == 'exhausted2' for e in r['events']):
+            res.violation('delivered-sequence-differs', case,
+                          {'second_iterator_delivered': d2, 'want': want}, sig=sig)
+            return False
+        if sorted(starts) != sorted(list(range(sc['n'])) * 2):
+            res.violation('not-evaluated-exactly-once', case,
+                          {'starts': starts, 'iterators': 2}, sig=sig)
+            return False
+        return True
     if sorted(starts) != list(range(sc['n'])):
         res.violation('not-evaluated-exactly-once', case, {'starts': starts}, sig=sig)
         return False
